@@ -4,7 +4,7 @@ import os
 import re
 
 import peg
-from rulelib import (SHIPPED, arm_regions, bool_edges, call_sites, cfg_of, defs_of, enum_switches, owner)
+from rulelib import (SHIPPED, arm_regions, bool_edges, call_sites, cfg_of, defs_of, enum_switches, owner, short)
 from dataflow import const_value, origins
 from facts import canon
 
@@ -493,6 +493,54 @@ def deref_depth_rule(prog, chk, rid):
             else:
                 chk.fail(rid, db.name, "same-depth-recursion", "deref_lvalue re-evaluates variable contents at the same depth (line %s) without the Literal test" % t.line)
     chk.floor(rid, "depth-guarded recursive calls", n_guarded, 1)
+    depth_carried_rule(prog, chk, rid)
+
+
+def depth_carried_rule(prog, chk, rid):
+    """the recursion counter is carried round every cycle of the evaluator: every function of the call-graph SCC of the
+    evaluator has a `depth` parameter, and every call between two of them passes a value derived from the caller's own
+    depth (same or +1), never a constant. Otherwise a cycle exists on which the counter restarts and the depth test of
+    deref_lvalue never trips: `x='t[x]'; $((x))` overflows the stack."""
+    from rulelib import callgraph
+    cg = callgraph(prog)
+    scc = cg.reachable_from({EVAL}) & cg.reaches({EVAL})
+    if EVAL not in scc or len(scc) < 2:
+        chk.fail(rid, EVAL, "evaluator-scc-missing", "the evaluator's recursion cycle was not found in the call graph (%d members)" % len(scc), nontrivial=False)
+        return
+    nedges = 0
+    for n in sorted(scc):
+        b = prog.body(n)
+        if b is None:
+            continue
+        names = [b.local_name(i) for i in range(1, b.argc + 1)]
+        if b.kind in ("closure", "coroutine"):
+            continue
+        if "depth" not in names:
+            chk.fail(rid, n, "cycle-member-without-depth",
+                     "%s is on a recursion cycle of the arithmetic evaluator (%s) but has no `depth` parameter: the counter behind the "
+                     "expression-recursion limit restarts on that cycle" % (n, " → ".join(short(x) for x in sorted(scc)[:6])))
+            continue
+        di = names.index("depth") + 1
+        d = defs_of(b)
+        for bb, t in b.calls():
+            cal = t.best_callee() or ""
+            if cal not in scc:
+                continue
+            cb = prog.body(cal)
+            cn = [cb.local_name(i) for i in range(1, cb.argc + 1)] if cb is not None else []
+            if "depth" not in cn:
+                continue     # reported at the callee
+            nedges += 1
+            a = t.args[cn.index("depth")]
+            og = origins(b, d, a, through_ops=True)
+            from_param = any(o.kind == 'arg' and o.node == di for o in og)
+            if from_param:
+                chk.ok(rid, "depth-carried:%s→%s" % (short(n), short(cal)), "depth argument derives from the caller's depth", function=n)
+            else:
+                chk.fail(rid, n, "depth-reset:%s" % short(cal),
+                         "%s calls %s at %s with a depth that does not derive from its own (origins: %s): the recursion counter restarts"
+                         % (n, cal, b.loc(t.line), [o.kind for o in og][:4]))
+    chk.floor(rid, "depth-carrying call edges inside the evaluator cycle", nedges, 10)
 
 
 def _arm_operation(b, blks):
